@@ -17,10 +17,6 @@ WF = 'optiland/wavefront.py'
 KNOWN = {}
 
 
-class StubInterfaceExceeded(Exception):
-    """the code under contract used a part of the optic that the stand-in below does not provide: the contract is undecided"""
-
-
 class _SG:
     """image-space records of the last trace (what SurfaceGroup.x/y/z/L/M/N/opd/intensity return): the
     modular stand-in for the trace, whose own contract is C02"""
